@@ -181,6 +181,8 @@ class DesignProperty:
                 self.judge(ctx)
         except env.CaseTimeout:
             return "inconclusive", ctx
+        except MemoryError:
+            return "inconclusive", ctx          # the worker's address-space limit (runner.MEM_LIMIT_BYTES) was hit
         except Skip as s:
             return "discarded:" + s.reason, ctx
         finally:
@@ -196,7 +198,7 @@ class DesignProperty:
     # ---- sharded run
     def _shard(self, arg):
         tier, seed_value, n = arg
-        acc = Acc()
+        acc = runner.track(Acc())
         avoid = known.avoid_predicates(self.id)
 
         def body(spec):
@@ -231,7 +233,8 @@ class DesignProperty:
             errs = fixtures.selftest()
             if errs:
                 raise RuntimeError("reference self-test failed (harness error, not a violation): " + "; ".join(errs[:3]))
-        acc = runner.run_jobs(_shard_entry, [(self.id, tier, runner.shard_seed(seed, i), self.n[tier]) for i in range(16)])
+        acc = runner.run_jobs(_shard_entry, [(self.id, tier, runner.shard_seed(seed, i), self.n[tier]) for i in range(16)],
+                              hard_case_s=2.5 * self.case_limit[tier] + 20)
         acc.extra["generator_config"] = {k: (list(v) if isinstance(v, tuple) else v) for k, v in self.cfg[tier].items()}
         return acc
 
